@@ -1,12 +1,45 @@
 (* Extraction of the executable model for the correspondence driver.
    ExtrOcamlBasic only: Z, positive, N, nat stay the extracted inductives. *)
 From Coq Require Import Extraction ExtrOcamlBasic ZArith List.
-From Pico Require Import Base.Res Small.Bitset.
+From Pico Require Import Base.Res Base.Mach Wire.Wire Small.Bitset Small.FieldNumStr
+  Schema.Types Schema.Scalar Schema.Gen Enc.Enc Dec.Dec Schema.Conv Schema.Interp Schema.Norm Ref.Ref.
+Import ListNotations.
 Extraction Language OCaml.
 
 (* entry points get unique mx_ names so that extraction never renames them *)
 Definition mx_bitset_run (xs : list Z) := Bitset.run_trace Bitset.empty xs.
+Definition mx_fn_string (f : Z) := FieldNumStr.fn_string f.
+
+Definition mx_gen_all (s : schema) := gen_all s.
+
+Definition msgv_of (v : val) : msgv :=
+  match v with VMsg (Some m) => m | VEmb fs u => (fs, u) | _ => ([], []) end.
+
+Definition mx_marshal (progs : list prog) (idx : nat) (v : val) : result bytes :=
+  pico_marshal (S (S (val_depth 100000 v))) progs idx (msgv_of v).
+
+Definition mx_unmarshal (progs : list prog) (idx : nat) (data : bytes) (m0 : val) :=
+  let '(e, m) := pico_unmarshal progs idx data (msgv_of m0) in (e, VMsg (Some m)).
+
+Definition mx_zero (progs : list prog) (idx : nat) : val :=
+  match nth_error progs idx with Some p => VMsg (Some (p_zero p, [])) | None => VMsg None end.
+
+Definition mx_norm (s : schema) (idx : nat) (v : val) : val :=
+  let m := msgv_of v in VMsg (Some (norm_fields (S (S (val_depth 100000 v))) s idx (fst m), snd m)).
+
+Definition mx_ref_encode (s : schema) (idx : nat) (v : val) : bytes :=
+  let m := msgv_of v in ref_encode (S (S (val_depth 100000 v))) s idx (fst m) (snd m).
+
+Definition mx_ref_decode (s : schema) (idx : nat) (data : bytes) (m0 : val) : option val :=
+  match ref_decode (S (length data)) s idx data (msgv_of m0) with
+  | Some m => Some (VMsg (Some m)) | None => None end.
+
+Definition mx_wf_input (s : schema) (idx : nat) (data : bytes) : bool := wf_input s idx data.
 
 Extraction "model.ml"
-  Z.add Z.mul Z.sub Z.opp Z.of_nat Z.to_nat Z.div_eucl Z.eqb Z.ltb
-  mx_bitset_run.
+  Z.add Z.mul Z.sub Z.opp Z.of_nat Z.to_nat Z.div_eucl Z.eqb Z.ltb Z.compare
+  mx_bitset_run mx_fn_string
+  mx_gen_all mx_marshal mx_unmarshal mx_zero mx_norm mx_ref_encode mx_ref_decode mx_wf_input
+  consume_varint append_varint consume_field_value consume_tag consume_bytes consume_fixed32 consume_fixed64
+  append_tag pw_append_tag size_varint enc_single enc_repeated dec_single dec_repeated
+  dur_split dur_join time_unix.
